@@ -938,6 +938,14 @@ class Engine:
             end_time = round(end_time, self.global_time_precision)
             emit_time = round(emit_time, self.global_time_precision)
 
+        if force_complete and end_time <= self.global_time and not any(
+                progress['time'] < end_time
+                for path, progress in self.front.items()
+                if path in self.process_paths):
+            # an empty interval, and no process was left behind the
+            # global time by an earlier call: nothing to complete
+            return
+
         while self.global_time < end_time or force_complete:
             # time of the next event (end of an interval)
             next_time = math.inf
@@ -954,7 +962,9 @@ class Engine:
                     self.front[path] = empty_front(self.global_time)
                 process_time = self.front[path]['time']
 
-                if process_time <= self.global_time:
+                # (a process that already is at end_time has nothing to
+                # complete when a forced interval is empty)
+                if process_time <= self.global_time and process_time < end_time:
 
                     # get the time step
                     store, states = self._process_state(path)
